@@ -1,13 +1,18 @@
 package main
 
 import (
+	"bytes"
 	"context"
 	"encoding/hex"
 	"fmt"
 	"math"
 	"os"
+	"os/exec"
+	"runtime"
 	"strconv"
 	"strings"
+	"sync"
+	"time"
 
 	"github.com/pinealctx/neptune/cache"
 	"github.com/pinealctx/neptune/cache/tiny"
@@ -389,6 +394,8 @@ func (r *runner) line(line string) string {
 			r.hit("C17:remap.XHashIndex:not-the-shard-of-its-hash", fmt.Sprintf("XHashIndex(%s %s)=%d, SearchIndex(XXHash)=%d", k.ty, k.text, idx, r.rm.SearchIndex(remap.XXHash(k.v))))
 		}
 		return out
+	case "firstuse":
+		return r.firstUse(f)
 	case "cont":
 		return r.newCont(f)
 	case "lock":
@@ -622,6 +629,137 @@ func (r *runner) lockOp(f []string) string {
 	}
 }
 
+// ---------------------------------------------------------------- concurrent FIRST users of a fresh router / container
+//
+// `firstuse <n> <rounds> <threads>` starts a CHILD PROCESS (`c17 firstuse …`, GOMAXPROCS >= 4): in every round a fresh ReMap
+// and a fresh xxhash-routed WideMap of n shards are created and <threads> goroutines released together immediately
+// route hashes / store keys through them. Every index obtained must be the one the (independently computed) boundary
+// table gives, every key stored must be found again afterwards. Routing must not depend on who uses the router first.
+// A wrong answer or a crash of the child is a hit; exceeding the time limit is a harness error (exit 2).
+
+func (r *runner) firstUse(f []string) string {
+	if len(f) != 4 {
+		return "bad-op"
+	}
+	n, ok1 := parseN(f[1])
+	rounds, ok2 := parseNatTok(f[2])
+	threads, ok3 := parseNatTok(f[3])
+	if !ok1 || !ok2 || !ok3 || n == 0 || rounds < 1 || rounds > 200 || threads < 2 || threads > 16 {
+		return "bad-op"
+	}
+	exe, err := os.Executable()
+	if err != nil {
+		fmt.Fprintln(os.Stderr, "c17: cannot locate own executable:", err)
+		os.Exit(2)
+	}
+	cmd := exec.Command(exe, "firstuse", f[1], f[2], f[3])
+	var out, errb bytes.Buffer
+	cmd.Stdout, cmd.Stderr = &out, &errb
+	if err := cmd.Start(); err != nil {
+		fmt.Fprintln(os.Stderr, "c17: cannot start the first-use child:", err)
+		os.Exit(2)
+	}
+	done := make(chan error, 1)
+	go func() { done <- cmd.Wait() }()
+	var werr error
+	select {
+	case werr = <-done:
+	case <-time.After(120 * time.Second):
+		_ = cmd.Process.Kill()
+		fmt.Fprintln(os.Stderr, "c17: first-use child did not finish within 120 s — harness error, no verdict")
+		os.Exit(2)
+	}
+	res := strings.TrimSpace(out.String())
+	what := fmt.Sprintf("%s goroutines using a fresh ReMap / xxhash WideMap of %s shards at the same time (%s rounds)", f[3], f[1], f[2])
+	switch {
+	case werr != nil:
+		tail := errb.String()
+		if len(tail) > 500 {
+			tail = tail[:500]
+		}
+		r.hit("C17:remap.SearchIndex:first-use-race", what+": the process died: "+strings.ReplaceAll(tail, "\n", " | "))
+		return "crashed"
+	case res == "ok":
+		return "ok"
+	default:
+		r.hit("C17:remap.SearchIndex:first-use-race", what+": "+res)
+		return "wrong"
+	}
+}
+
+func firstUseChild(args []string) {
+	if len(args) != 3 {
+		os.Exit(3)
+	}
+	n, _ := strconv.ParseUint(args[0], 10, 64)
+	rounds, _ := strconv.Atoi(args[1])
+	threads, _ := strconv.Atoi(args[2])
+	if runtime.GOMAXPROCS(0) < 4 {
+		runtime.GOMAXPROCS(4)
+	}
+	var mu sync.Mutex
+	bad := ""
+	fail := func(s string) {
+		mu.Lock()
+		if bad == "" {
+			bad = s
+		}
+		mu.Unlock()
+	}
+	y := uint64(math.MaxUint64) / n
+	for round := 0; round < rounds && bad == ""; round++ {
+		rm := remap.NewReMap(remap.WithPrime(n))
+		var wm cache.MapFacade
+		if n <= 4096 {
+			wm = cache.NewWideXHashMap(remap.WithPrime(n))
+		}
+		start := make(chan struct{})
+		var wg sync.WaitGroup
+		for t := 0; t < threads; t++ {
+			wg.Add(1)
+			go func(t int) {
+				defer wg.Done()
+				defer func() {
+					if x := recover(); x != nil {
+						fail(fmt.Sprintf("panic in a first user: %v", x))
+					}
+				}()
+				<-start
+				for j := 0; j < 40; j++ {
+					// hashes spread over the whole range, boundaries included
+					sh := (uint64(t)*7919 + uint64(j)*104729 + uint64(round)*13) % n
+					x := y*(sh+1) - uint64(j%3)
+					got := rm.SearchIndex(x)
+					if got < 0 || uint64(got) >= n || x > boundary(n, uint64(got)) || (got > 0 && x <= boundary(n, uint64(got-1))) {
+						fail(fmt.Sprintf("SearchIndex(%d) = %d on a ReMap of %d shards while other goroutines use it for the first time; shard %d does not cover that hash", x, got, n, got))
+						return
+					}
+					if wm != nil {
+						k := t*1000 + j
+						wm.Set(k, k)
+					}
+				}
+			}(t)
+		}
+		close(start)
+		wg.Wait()
+		if wm != nil && bad == "" {
+			for t := 0; t < threads; t++ {
+				for j := 0; j < 40; j++ {
+					if v, ok := wm.Get(t*1000 + j); !ok || v.(int) != t*1000+j {
+						fail(fmt.Sprintf("key %d stored by a first user of a fresh xxhash WideMap (%d shards) is not found afterwards", t*1000+j, n))
+					}
+				}
+			}
+		}
+	}
+	if bad != "" {
+		fmt.Println("wrong: " + bad)
+		return
+	}
+	fmt.Println("ok")
+}
+
 // hitGroupUnsupported: one root cause (ToBytes has no HitGroup arm), one key, whichever entry point shows it
 func (r *runner) hitGroupUnsupported(what string) {
 	r.hit("C17:XHashIndex:HitGroup-key-unsupported", what+": panics `unsupported.type.for.slot` — a key type that implements only remap.HitGroup cannot be routed by xxhash although the property lists HitGroup implementers under both routings")
@@ -630,8 +768,15 @@ func (r *runner) hitGroupUnsupported(what string) {
 func runCase(c corr.Case) corr.Result {
 	r := &runner{seen: map[string]bool{}}
 	var res corr.Result
+	trace := os.Getenv("NV_TRACE") != ""
 	for _, l := range c.Lines {
+		if trace {
+			fmt.Fprintln(os.Stderr, "TRACE", l)
+		}
 		out, _ := guardS(func() string { return r.line(l) })
+		if trace {
+			fmt.Fprintln(os.Stderr, "TRACE  ->", out)
+		}
 		res.Outs = append(res.Outs, out)
 	}
 	r.locksCleanup()
